@@ -207,6 +207,12 @@ def _one(rc: RuleCtx, name: str):
         state[n] = ev.symbol(n)
         benv[n] = state[n]
     benv[L] = ev.symbol(L + "@list")
+    # a carried position that provably is i + c at the head of every iteration (`prev = i` at the end of each round) is that value
+    from .common import affine_positions
+    aff = affine_positions(ev, fi, loop, benv, carried, env, i, C(1))
+    if aff:
+        benv.update(aff)
+        res.note(f"{fi.qualname}: carried position(s) {', '.join(f'{k} == {v}' for k, v in sorted(aff.items()))} at the head of every iteration (induction over the pass)")
     try:
         out = ev.eval_loop_body(fi, loop, benv)
     except Unsupported as e:
